@@ -41,7 +41,12 @@ type Ctx struct {
 	labels     []string
 	nontrivial bool
 	sample     any
+	excluded   []string
 }
+
+// Exclude records that the case was left out of the oracle because it
+// matches the predicate of the open known finding id.
+func (x *Ctx) Exclude(id string) { x.excluded = append(x.excluded, id) }
 
 func (x *Ctx) Label(l string)   { x.labels = append(x.labels, l) }
 func (x *Ctx) NonTrivial()      { x.nontrivial = true }
@@ -436,6 +441,12 @@ func (p *Prop[C]) One(c C) *Failure {
 		out, _ := json.MarshalIndent(replayFile{Property: p.ID, Check: p.Name, Failure: f, Case: raw}, "", " ")
 		writeFileAtomic(filepath.Join(outDir(), fmt.Sprintf("fail-%s-%d.json", p.ID, os.Getpid())), out)
 		return f
+	}
+	for _, id := range x.excluded {
+		p.stats.AddExcluded(id)
+	}
+	if len(x.excluded) > 0 {
+		x.nontrivial = false
 	}
 	p.stats.Record(key, x.nontrivial, x.labels, func() any {
 		if x.sample != nil {
